@@ -137,6 +137,119 @@ def h_folding(env, n_mos, ne, spin, frozen, uhf=False, canary=False):
                          f"H_active|{''.join(map(str, f_act))}> == CAS projection of the full-space Slater-Condon row (frozen={frozen}, uhf={uhf})")
 
 
+def _sym8(env, m, pre):
+    h = [[None] * m for _ in range(m)]
+    for i in range(m):
+        for j in range(i, m):
+            h[i][j] = h[j][i] = env.real(f"{pre}h{i}{j}", -2, 2)
+    eri = [[[[None] * m for _ in range(m)] for _ in range(m)] for _ in range(m)]
+    for i, j, k, l in itertools.product(range(m), repeat=4):
+        if eri[i][j][k][l] is None:
+            v = env.real(f"{pre}g{i}{j}{k}{l}", -2, 2)
+            for (a, b, c, d) in ((i, j, k, l), (j, i, k, l), (i, j, l, k), (j, i, l, k), (k, l, i, j), (l, k, i, j), (k, l, j, i), (l, k, j, i)):
+                eri[a][b][c][d] = v
+    return h, eri
+
+
+def _sym_ab(env, m):
+    """(pq|rs) with pq alpha and rs beta orbitals: symmetric within each pair only"""
+    eri = [[[[None] * m for _ in range(m)] for _ in range(m)] for _ in range(m)]
+    for i, j, k, l in itertools.product(range(m), repeat=4):
+        if eri[i][j][k][l] is None:
+            v = env.real(f"abg{i}{j}{k}{l}", -2, 2)
+            for (a, b, c, d) in ((i, j, k, l), (j, i, k, l), (i, j, l, k), (j, i, l, k)):
+                eri[a][b][c][d] = v
+    return eri
+
+
+def uhf_terms(const, ha, hb, eaa, eab, ebb, n):
+    """textbook spin-unrestricted Hamiltonian as an operator dict (interleaved ordering: alpha 2p, beta 2p+1)"""
+    t = {(): const}
+
+    def add(term, c):
+        t[term] = t.get(term, 0) + c
+    for p in range(n):
+        for q in range(n):
+            add(((2 * p, 1), (2 * q, 0)), ha[p][q])
+            add(((2 * p + 1, 1), (2 * q + 1, 0)), hb[p][q])
+    half = R.C(1) / 2
+    for p, q, r, s_ in itertools.product(range(n), repeat=4):
+        add(((2 * p, 1), (2 * r, 1), (2 * s_, 0), (2 * q, 0)), half * eaa[p][q][r][s_])
+        add(((2 * p + 1, 1), (2 * r + 1, 1), (2 * s_ + 1, 0), (2 * q + 1, 0)), half * ebb[p][q][r][s_])
+        add(((2 * p, 1), (2 * r + 1, 1), (2 * s_ + 1, 0), (2 * q, 0)), eab[p][q][r][s_])
+    return t
+
+
+def h_folding_uhf(env, n_mos, ne, spin, frozen, canary=False):
+    """UHF with DIFFERENT alpha and beta integrals and per-spin frozen lists"""
+    const = env.real("E0", -2, 2)
+    ha, eaa = _sym8(env, n_mos, "a")
+    hb, ebb = _sym8(env, n_mos, "b")
+    eab = _sym_ab(env, n_mos)
+    with alloc(env):
+        mol = symmol.molecule(n_mos, ne, spin, const, ha, eaa, env.symbolic, frozen=frozen, uhf=True, h_b=hb, eri_ab=eab, eri_bb=ebb)
+        H = mol.fermionic_hamiltonian
+    act_a, act_b = list(mol.active_mos[0]), list(mol.active_mos[1])
+    fo_a, fo_b = list(mol.frozen_occupied[0]), list(mol.frozen_occupied[1])
+    na_, nb_ = len(act_a), len(act_b)
+    nq = 2 * max(na_, nb_)
+    full = uhf_terms(const, ha, hb, eaa, eab if not canary else [[[[x * 2 for x in c] for c in b] for b in a] for a in eab], ebb, n_mos)
+    terms = dict(H.terms)
+
+    def to_full(f_act):
+        f = [0] * (2 * n_mos)
+        for i in fo_a:
+            f[2 * i] = 1
+        for i in fo_b:
+            f[2 * i + 1] = 1
+        for k_, i in enumerate(act_a):
+            f[2 * i] = f_act[2 * k_]
+        for k_, i in enumerate(act_b):
+            f[2 * i + 1] = f_act[2 * k_ + 1]
+        return tuple(f)
+
+    def to_act(g):
+        out = [0] * nq
+        for k_, i in enumerate(act_a):
+            out[2 * k_] = g[2 * i]
+        for k_, i in enumerate(act_b):
+            out[2 * k_ + 1] = g[2 * i + 1]
+        return tuple(out)
+    core = sorted([2 * i for i in fo_a] + [2 * i + 1 for i in fo_b])
+
+    def sign(f_act):
+        """|f>_act stands for (active creators in ACTIVE order) acting on the frozen core; bringing that operator string to
+        ascending full-space order costs (-1)^inversions - a basis-vector sign convention, not physics"""
+        seq = []
+        for k_ in range(nq // 2):
+            if k_ < na_ and f_act[2 * k_]:
+                seq.append(2 * act_a[k_])
+            if k_ < nb_ and f_act[2 * k_ + 1]:
+                seq.append(2 * act_b[k_] + 1)
+        seq += core
+        inv = sum(1 for i in range(len(seq)) for j in range(i + 1, len(seq)) if seq[i] > seq[j])
+        return -1 if inv % 2 else 1
+
+    for f_act in itertools.product((0, 1), repeat=nq):
+        # positions beyond a spin's active count do not exist: keep them empty
+        if any(f_act[2 * k_] for k_ in range(na_, nq // 2)) or any(f_act[2 * k_ + 1] for k_ in range(nb_, nq // 2)):
+            continue
+        f_full = to_full(f_act)
+        row = fock.apply_operator(full, f_full)
+        exp = {}
+        for g, v in row.items():
+            ok = all(g[2 * i] == 1 for i in fo_a) and all(g[2 * i + 1] == 1 for i in fo_b)
+            ok = ok and all(g[2 * i] == 0 for i in range(n_mos) if i not in act_a and i not in fo_a)
+            ok = ok and all(g[2 * i + 1] == 0 for i in range(n_mos) if i not in act_b and i not in fo_b)
+            if ok:
+                ga = to_act(g)
+                exp[ga] = exp.get(ga, 0) + v * (sign(f_act) * sign(ga))
+        got = fock.apply_operator(terms, f_act)
+        keys = sorted(set(got) | set(exp))
+        env.check_vec_eq([got.get(k_, 0) for k_ in keys], [exp.get(k_, 0) for k_ in keys],
+                         f"UHF H_active|{''.join(map(str, f_act))}> == CAS projection of the spin-unrestricted Hamiltonian (frozen={frozen})")
+
+
 def h_reference(env, n_mos, ne, spin, frozen, mapping, utd):
     from tangelo.toolboxes.qubit_mappings.mapping_transform import fermion_to_qubit_mapping
     from tangelo.toolboxes.qubit_mappings.statevector_mapping import get_reference_circuit
@@ -175,6 +288,12 @@ def shapes(tier, seed):
     for (n, ne, sp, fr, uhf) in fold:
         out.append(Shape(f"folding/n{n}e{ne}s{sp}/{fr}/uhf={int(uhf)}", h_folding, dict(n_mos=n, ne=ne, spin=sp, frozen=fr, uhf=uhf),
                          modules=MODS, max_paths=8))
+    ufold = [(2, 2, 0, [[], []]), (3, 3, 1, [[0], [1]]), (3, 4, 0, [[0], [0]]), (3, 3, 1, [[0, 2], [0]]), (3, 4, 2, [[1], [0]])]
+    if tier == "thorough":
+        ufold += [(4, 5, 1, [[1, 3], [0, 3]]), (4, 4, 0, [[0], [1]]), (3, 2, 0, [[2], [1]])]
+    for (n, ne, sp, fr) in ufold:
+        out.append(Shape(f"folding_uhf/n{n}e{ne}s{sp}/{fr}", h_folding_uhf, dict(n_mos=n, ne=ne, spin=sp, frozen=fr), modules=MODS, max_paths=8))
+    out.append(Shape("canary/folding_uhf", h_folding_uhf, dict(n_mos=3, ne=3, spin=1, frozen=[[0], [1]], canary=True), modules=MODS, canary=True, max_paths=8))
     out.append(Shape("canary/folding", h_folding, dict(n_mos=3, ne=4, spin=0, frozen=[0], canary=True), modules=MODS, canary=True, max_paths=8))
     refs = [(2, 2, 0, None), (3, 4, 0, [0]), (3, 2, 0, [2]), (3, 2, 0, [1])]
     if tier == "thorough":
